@@ -289,7 +289,11 @@ func (d *dbT) describe() string {
 	var sb strings.Builder
 	for _, tb := range d.tables {
 		sb.WriteString("create " + tb.schema() + "\n")
-		for _, r := range tb.rows {
+		for i, r := range tb.rows {
+			if i >= 20 {
+				sb.WriteString(fmt.Sprintf("    ... %d more rows (%s ... %s)\n", len(tb.rows)-i, recLit(tb, r), recLit(tb, tb.rows[len(tb.rows)-1])))
+				break
+			}
 			sb.WriteString("    " + recLit(tb, r) + "\n")
 		}
 	}
